@@ -28,11 +28,14 @@ import vlib
 from vlib import Line, dec, enc
 
 PID = 'C14'
-# input domain: 'announced' (default) leaves out three degenerate input classes on which the unchanged tree has defects
-# that the property text does not announce (see `assumptions`); 'full' includes them.
-FULL_DOMAIN = os.environ.get('VERIF_C14_DOMAIN', 'announced') == 'full'
+# The input domain includes the degenerate classes inside the property's quantifier on which the unchanged tree fails
+# (knot spacing dividing the data span exactly, exactly tangent Dubins circles, curves at rest / infeasible forward pass);
+# findings on them carry narrow identifying keys.
+FULL_DOMAIN = True
+REP_PREDICTED = {}    # rep request -> the Lean model predicts a segment of non-positive duration
 U = 2.0 ** -52
-TOL_REL = 1e-6
+TOL_REL = 1e-6          # the property's tolerance: 1-d constraints, interpolation of the group curve
+TOL_VEL = 1e-5          # body-velocity continuity / rest at the ends of the group curve (relative to the data speed)
 
 # spec name -> (K, OptDeg, InnCnt, LeftDeg, RghtDeg)
 SPEC = {'PL': (1, -1, 0, [], []), 'FDC11': (3, -1, 2, [1], [1]), 'FDC22': (3, -1, 2, [2], [2]),
@@ -124,6 +127,11 @@ def crash_findings():
         if 'Assertion' in err:
             m = err[err.index('Assertion'):][:200]
             what += ': ' + m
+        if op == 'rep':
+            key = {'kind': 'reparameterize_abort', 'model_predicts_nonpositive_segment_duration': bool(REP_PREDICTED.get(req.split(' # ')[0].strip(), False))}
+            what = (f'reparameterize_spline aborts on {grp}' + (f' [{m}]' if m else '') +
+                    ('; the Lean model of the forward pass (with the implementation\'s lp2d results) emits a segment of duration <= 0 here'
+                     if key['model_predicts_nonpositive_segment_duration'] else ''))
         if op == 'bsp':
             l = Line(req)
             v = l.in_vals()
@@ -521,16 +529,16 @@ def judge_fitspl(lines, st):
                 e = max(abs(a - b) for a, b in zip(vl, vr)) / m
                 if e > w_vel:
                     w_vel, at = e, i
-            if not w_vel <= TOL_REL:
-                findings.append({'property': PID, 'key': dict(key, kind='fit_spline_velocity'), 'err': w_vel, 'tol': TOL_REL,
+            if not w_vel <= TOL_VEL:
+                findings.append({'property': PID, 'key': dict(key, kind='fit_spline_velocity'), 'err': w_vel, 'tol': TOL_VEL,
                                  'what': f'fit_spline({G}, {SPEC_DOC[spec]}): body velocity jumps at data point {at} by {w_vel:.3e} '
                                          f'relative; N={N} min dt={min(dts):.4g}', 'line': l.raw})
         if 1 in L and 1 in R:
             v0 = P[0][2][rep:]
             v1 = P[N - 1][0][rep:]
             w_rest = max(max(abs(x) for x in v0), max(abs(x) for x in v1)) / vscale
-            if not w_rest <= TOL_REL:
-                findings.append({'property': PID, 'key': dict(key, kind='fit_spline_rest'), 'err': w_rest, 'tol': TOL_REL,
+            if not w_rest <= TOL_VEL:
+                findings.append({'property': PID, 'key': dict(key, kind='fit_spline_rest'), 'err': w_rest, 'tol': TOL_VEL,
                                  'what': f'fit_spline({G}, {SPEC_DOC[spec]}): zero boundary velocity requested, curve starts/ends with '
                                          f'speed {w_rest:.3e} relative to the data speed; N={N} min dt={min(dts):.4g}', 'line': l.raw})
         cs['worst_interp'] = max(cs['worst_interp'], w_int)
@@ -564,7 +572,7 @@ def judge_fitglue(lines, st):
     broken = []
     if t1['breaks']:
         b = t1['breaks'][0]
-        b = dict(b, line=b['line'][:3000], model=str(b.get('model'))[:1500])
+        b = dict(b, line=Line(b['line']).request(), model=str(b.get('model'))[:1500])
         broken.append({'what': 'correspondence', 'name': 'T1 fit_glue (fit_spline glue: implementation vs Lean model)',
                        'count': len(t1['breaks']), 'first': b})
     return [], broken
@@ -917,7 +925,7 @@ def judge_rep(lines, st):
         samples = [samp[3 * j:3 * j + 3] for j in range(257)]
         s_after = o[-1]
         st['rep']['n'] += 1
-        key = {'kind': 'reparameterize', 'N': N}
+        key = {'kind': 'reparameterize'}
         ok_shape = (ncalls == 2 * N + 1)
         if not all(math.isfinite(x) for x in [T] + samp):
             findings.append({'property': PID, 'key': dict(key, check='finite'), 'err': None, 'tol': 0.0,
@@ -937,12 +945,15 @@ def judge_rep(lines, st):
                              'what': f"s' = {neg} < 0 on the grid", 'line': l.raw})
         # onto [t_min, t_max]
         stationary = any(max(abs(x) for x in c[1:4]) <= REP_EPS for c in calls)
+        at_rest0 = ncalls > 1 + N and max(abs(x) for x in calls[1 + N][1:4]) <= REP_EPS
         if stationary:
-            # outside the checked domain (see assumptions): stationary stretches are skipped by design
             st['rep']['stationary_grid_point_cases'] = st['rep'].get('stationary_grid_point_cases', 0) + 1
-        elif samples[0][1] != 0.0:
-            findings.append({'property': PID, 'key': dict(key, check='onto_start'), 'err': abs(samples[0][1]), 'tol': 0.0,
-                             'what': f's(0) = {samples[0][1]} is not t_min = 0', 'line': l.raw})
+        if samples[0][1] != 0.0:
+            findings.append({'property': PID, 'key': dict(key, check='onto_start', curve='starts_at_rest' if at_rest0 else 'moving'),
+                             'err': abs(samples[0][1]), 'tol': 0.0,
+                             'what': f's(0) = {samples[0][1]} is not t_min = 0' +
+                                     (' (the curve is at rest at t_min: the code skips stationary stretches, `if (ai != inf)`)' if at_rest0 else ''),
+                             'line': l.raw})
         gap = abs(samples[-1][1] - smax) / max(1.0, smax)
         if not stationary:
             st['rep']['worst_end_gap'] = max(st['rep'].get('worst_end_gap', 0.0), gap)
@@ -968,8 +979,15 @@ def judge_rep(lines, st):
             cases.append({'line': l, 'N': N, 'pts': pts, 'bounds': bounds, 'sv': sv, 'ev': ev, 'smax': smax, 'T': T, 'nseg': nseg})
         else:
             broken.append({'what': 'correspondence', 'name': 'T1 rep_run: curve evaluations differ from the model (1 + N backward + N forward at s0+ds*i)',
-                           'first': {'line': l.raw[:2000], 'calls': ncalls, 'N': N}})
+                           'first': {'line': l.request(), 'calls': ncalls, 'N': N}})
     broken += rep_t1(cases, st)
+    for c in cases:
+        if c.get('uninit'):
+            i = next(k for k, (y, stt) in enumerate(c['lp']) if stt == 1)
+            findings.append({'property': PID, 'key': {'kind': 'reparameterize_uninitialised_v2max'}, 'err': None, 'tol': 0.0,
+                             'what': f'reparameterize_spline: lp2d::solve returns PrimaryInfeasible at grid point {i} (rows {c["rows"][i]}); '
+                                     'v2max(i) is then never written and the forward pass reads uninitialised memory',
+                             'line': c['line'].request()})
     return findings, broken
 
 
@@ -1132,10 +1150,16 @@ def rep_t1(cases, st):
     for c in cases:
         l = c['line']
         N = c['N']
+        if any(stt == 1 for (y, stt) in c['lp']):
+            # lp2d::solve reported PrimaryInfeasible: the code leaves v2max(i) unwritten (no else branch) and later
+            # reads the uninitialised entry — the implementation's result is not a function of its inputs here
+            st['rep']['uninitialised_v2max_cases'] = st['rep'].get('uninitialised_v2max_cases', 0) + 1
+            c['uninit'] = True
+            continue
         st['t1']['rep_run']['n'] += 1
         m = c['model']
         if 'err' in m:
-            broken.append({'what': 'correspondence', 'name': 'T1 rep_run', 'first': {'line': l.raw[:2000], 'model': m['err']}})
+            broken.append({'what': 'correspondence', 'name': 'T1 rep_run', 'first': {'line': l.request(), 'model': m['err']}})
             continue
         rows_p = [x for i in range(N) for r in c['rows'][i] for x in r]
         same_rows = [enc(a, 'f64') for a in m['rows']] == [enc(a, 'f64') for a in rows_p]
@@ -1147,7 +1171,7 @@ def rep_t1(cases, st):
         if not (same_rows and same_v2 and m['nseg'] == c['nseg'] and e <= 1e-11):
             st['t1']['rep_run']['disagree'] = st['t1']['rep_run'].get('disagree', 0) + 1
             broken.append({'what': 'correspondence', 'name': 'T1 rep_run (reparameterize bookkeeping: implementation vs Lean model)',
-                           'first': {'line': l.raw[:3000], 'impl_T': c['T'], 'model_T': Tm, 'impl_segments': c['nseg'], 'model_segments': m['nseg'],
+                           'first': {'line': l.request(), 'impl_T': c['T'], 'model_T': Tm, 'impl_segments': c['nseg'], 'model_segments': m['nseg'],
                                      'lp_rows_equal': same_rows, 'v2max_equal': same_v2}})
     return broken
 
@@ -1183,18 +1207,17 @@ class C14:
                    'parameter u = t/dt (no 1/dt^d factor), as the code defines them; zero values are unaffected',
                    'group-valued data: consecutive differences inside the injectivity radius (rotation angle < 2.6 rad)',
                    'dubins_curve is checked at K = 3 (ConstantVelocity for other K belongs to C12)',
-                   'reparameterize_spline: the onto check (s(0) = t_min, s(T) = t_max to 1e-6) is applied to curves whose body velocity '
-                   'is non-zero at every grid point; stationary stretches are skipped by the code by design (`if (ai != inf)`), which '
-                   'makes s jump there; monotonicity and the start speed are checked for all curves',
+                   'reparameterize_spline: `onto` is checked as s(0) = t_min and final value s(T+) = t_max (the last concat_global(t_max)); '
+                   'the value at T itself is the last segment\'s own end, which the max(eps, .) guard may leave short (statistic worst_end_gap)',
                    'the velocity/acceleration bounds themselves are not part of C14; lp2d::solve is audited against an exact rational LP '
                    'and its failures are reported as statistics (coverage.reparameterize.lp2d_audit)']
 
     def budgets(self, ctx):
         q = ctx['tier'] == 'quick'
         b = ctx.get('budget', 1)
-        return {'fit1d': (22 if q else 140) * b, 'kkt': 12 if q else 60, 'fitspl': (3 if q else 14) * b, 'glue': (2 if q else 8) * b,
-                'dub_random': (300 if q else 6000) * b, 'dub_grid': 0.25 if q else 1.0,
-                'bsp': (24 if q else 160) * b, 'rep': (30 if q else 400) * b}
+        return {'fit1d': (22 if q else 400) * b, 'kkt': 12 if q else 90, 'fitspl': (3 if q else 36) * b, 'glue': (2 if q else 20) * b,
+                'dub_random': (300 if q else 20000) * b, 'dub_grid': 0.25 if q else 1.0,
+                'bsp': (24 if q else 450) * b, 'rep': (30 if q else 1000) * b}
 
     def explore(self, ctx):
         rnd = random.Random(ctx['seed'] * 1000003 + 14)
@@ -1205,6 +1228,8 @@ class C14:
         del CRASHES[:]
         rep_reqs = gen_rep(rnd, B['rep'])
         flags = rep_prescreen(rep_reqs, st)
+        for r, bad in zip(rep_reqs, flags):
+            REP_PREDICTED[r.split(' # ')[0].strip()] = bad
         st['rep']['generated'] = len(rep_reqs)
         st['rep']['model_predicts_nonpositive_segment_duration'] = sum(flags)
         if not FULL_DOMAIN:
@@ -1274,6 +1299,10 @@ class C14:
         if not reqs:
             return {'coverage': {}, 'findings': [], 'broken': payload.get('no_longer_checks', [])}
         del CRASHES[:]
+        rep_reqs = [r for r in reqs if r.split()[0] == 'rep']
+        if rep_reqs:
+            for r, bad in zip(rep_reqs, rep_prescreen(rep_reqs, st)):
+                REP_PREDICTED[r.split(' # ')[0].strip()] = bad
         lines = [l for l in run_impl(reqs) if l is not None]
         f, b = self.judge(lines, st)
         return {'coverage': self.coverage(lines, st), 'findings': f + crash_findings(), 'broken': b}
